@@ -391,12 +391,11 @@ class PrettyPrinter:
         ):
             attr_props = attr_props["allOf"][0]
 
-        if any(i in ["enum"] for i in attr_props):
-            if isinstance(value, dict) and not value:
-                raise ValueError(
-                    f"The property {attr} has an empty dictionary as a value"
-                )
+        if isinstance(value, dict) and not value:
+            # e.g. created by reading a missing keyword from an auto-creating Mapfile dict
+            raise ValueError(f"The property {attr} has an empty dictionary as a value")
 
+        if any(i in ["enum"] for i in attr_props):
             if not isinstance(value, numbers.Number):
                 if attr == "compop":
                     return self.quoter.add_quotes(str(value))
